@@ -28,6 +28,9 @@ type Check struct {
 	Exhaustive  bool              // the stated grid is enumerated completely in every tier
 	Runs        func(tier string) int
 	Run         func(r *Run)
+	// Isolate: run the batch in a child process, so that a death of the process (a panic in a goroutine the
+	// code under test started, a runaway loop) is observed and attributed to a run (see supervise.go).
+	Isolate bool
 	// MustProbe lists probes that have to be > 0 in a thorough batch; a probe
 	// stuck at zero is a harness failure (exit 2), never a violation.
 	MustProbe []string
@@ -62,6 +65,9 @@ type ReplayFile struct {
 	// PrefixRuns: execute runs 0..RunIndex of the batch sequentially (each from its own seed) and
 	// look for the violation in the last one — for violations that need state left by earlier runs.
 	PrefixRuns bool `json:"prefix_runs,omitempty"`
+	// CrashMode: the run kills its own process (a panic outside the calling goroutine) or never finishes;
+	// replayed by executing run RunIndex in a child process and looking at how that process ends.
+	CrashMode bool `json:"crash_mode,omitempty"`
 }
 
 type finding struct {
@@ -184,6 +190,14 @@ func Main(c *Check, tb *testing.T) int {
 	if rp := os.Getenv("VERIF_REPLAY"); rp != "" {
 		return replayMain(c, rp, tb)
 	}
+	if os.Getenv("VERIF_CHILD") != "" {
+		if only := os.Getenv("VERIF_ONLY"); only != "" {
+			i, _ := strconv.Atoi(only)
+			return onlyMain(c, tier, master, i, tb)
+		}
+	} else if c.Isolate && os.Getenv("VERIF_DIGEST_ONLY") == "" && os.Getenv("VERIF_TRACE") == "" {
+		return supervise(c, tier, master)
+	}
 	fmt.Printf("VERIF_SEED=%d property=%s tier=%s\n", master, c.ID, tier)
 	if ds := os.Getenv("VERIF_DIGEST_ONLY"); ds != "" {
 		// child mode of the determinism re-check: execute one run index, print its digest
@@ -231,7 +245,9 @@ func Main(c *Check, tb *testing.T) int {
 					return
 				}
 				seed := SubSeed(master, c.ID, i)
+				progress("S", i)
 				res, _ := execRun(c, tier, i, seed, NewTape(seed), "", false, tb)
+				progress("E", i)
 				results[i] = &res
 			}
 		}()
@@ -610,6 +626,9 @@ func replayMain(c *Check, path string, tb *testing.T) int {
 		return ExitHarness
 	}
 	fmt.Printf("REPLAY property=%s class=%s master_seed=%d run_index=%d tape_len=%d focus=%q prefix=%v\n", rf.Property, rf.Class, rf.MasterSeed, rf.RunIndex, len(rf.Tape), rf.Focus, rf.PrefixRuns)
+	if rf.CrashMode {
+		return replayCrash(c, &rf, path)
+	}
 	if rf.PrefixRuns {
 		for i := 0; i <= rf.RunIndex; i++ {
 			seed := SubSeed(rf.MasterSeed, c.ID, i)
